@@ -45,7 +45,6 @@ type multiUpdateExecutor struct {
 	execContext *types.ExecContext
 }
 
-var rows driver.Rows
 var comma = ","
 
 // NewMultiUpdateExecutor get new multi update executor
@@ -156,7 +155,7 @@ func (u *multiUpdateExecutor) afterImage(ctx context.Context, beforeImages []*ty
 	// use
 	selectSQL, selectArgs := u.buildAfterImageSQL(beforeImage, *metaData)
 
-	rows, err = u.rowsPrepare(ctx, selectSQL, selectArgs)
+	rows, err := u.rowsPrepare(ctx, selectSQL, selectArgs)
 	defer func() {
 		if err := rows.Close(); err != nil {
 			log.Errorf("rows close fail, err:%v", err)
@@ -183,6 +182,7 @@ func (u *multiUpdateExecutor) rowsPrepare(ctx context.Context, selectSQL string,
 	if !ok {
 		queryer, ok = u.execContext.Conn.(driver.Queryer)
 	}
+	var rows driver.Rows
 	if ok {
 		var err error
 		rows, err = util.CtxDriverQuery(ctx, queryerContext, queryer, selectSQL, selectArgs)
